@@ -63,6 +63,34 @@ func stripConv(v ssa.Value) ssa.Value {
 				v = x.Common().Args[0]
 				continue
 			}
+			// an in-repo conversion helper whose every return is such a conversion of one parameter
+			if sc := x.Common().StaticCallee(); sc != nil && inRepoFn(sc) && len(sc.Blocks) > 0 && len(sc.Blocks) <= 3 && sc.Signature.Results().Len() == 1 {
+				pi := -1
+				okAll := true
+				for _, b := range sc.Blocks {
+					ret, isRet := b.Instrs[len(b.Instrs)-1].(*ssa.Return)
+					if !isRet {
+						continue
+					}
+					prm, isPrm := stripConv(ret.Results[0]).(*ssa.Parameter)
+					if !isPrm {
+						okAll = false
+						break
+					}
+					for i, q := range sc.Params {
+						if q == prm {
+							if pi >= 0 && pi != i {
+								okAll = false
+							}
+							pi = i
+						}
+					}
+				}
+				if okAll && pi >= 0 && pi < len(x.Common().Args) {
+					v = x.Common().Args[pi]
+					continue
+				}
+			}
 			return v
 		default:
 			return v
@@ -212,7 +240,7 @@ func rulePAN2(p *Program) *RuleResult {
 		}
 		// divisor is (a conversion of) a parameter: shift the obligation to
 		// every static caller
-		if depth < 2 {
+		if depth < 4 {
 			if prm, ok := stripConv(v).(*ssa.Parameter); ok {
 				idx := -1
 				for i, q := range fn.Params {
@@ -365,6 +393,13 @@ func rulePAN4(p *Program) *RuleResult {
 					r.ok(key, desc, p.instrPos(ins), "visitor result assertion: discharged by PAN7 (every override returns exactly this dynamic type)", true)
 				default:
 					r.bad(key, desc, p.instrPos(ins), "unchecked type assertion with no dominating proof of the dynamic type: panics when the operand has another type")
+					if caller, site, ok := callerAlias(p, fn); ok {
+						od := originDescr(ta.X)
+						if a := argFor(fn, site, ta.X); a != nil {
+							od = originDescr(a)
+						}
+						r.alias(short(caller) + "|" + od + ".(" + typeShort(ta.AssertedType) + ")")
+					}
 				}
 			}
 		}
@@ -1268,9 +1303,52 @@ func smallUpperBound(v ssa.Value, depth int) (int64, bool) {
 		if lk, ok := x.Tuple.(*ssa.Lookup); ok && x.Index == 0 {
 			return smallUpperBound(lk, depth+1)
 		}
+	case *ssa.Parameter:
+		// parameter of an unexported function that is only called directly: bounded by
+		// the largest bound among the arguments
+		fn := x.Parent()
+		if fn == nil || theProgram == nil {
+			return 0, false
+		}
+		sites, ok := theProgram.directCallSites(fn)
+		if only := siteRestrict[fn]; only != nil {
+			// the value is followed through one particular call: its arguments alone count
+			sites, ok = []*ssa.Call{only}, true
+		}
+		if !ok {
+			return 0, false
+		}
+		pi := -1
+		for i, q := range fn.Params {
+			if q == x {
+				pi = i
+			}
+		}
+		if pi < 0 {
+			return 0, false
+		}
+		worst := int64(0)
+		for _, c := range sites {
+			if pi >= len(c.Common().Args) {
+				return 0, false
+			}
+			ub, ok := smallUpperBound(c.Common().Args[pi], depth+1)
+			if !ok {
+				return 0, false
+			}
+			if ub > worst {
+				worst = ub
+			}
+		}
+		return worst, true
 	}
 	return 0, false
 }
+
+// siteRestrict: while a value is followed into a callee through one call, or a
+// site in a callee is decided for one of its call sites, the callee's
+// parameters stand for that call's arguments only.
+var siteRestrict = map[*ssa.Function]*ssa.Call{}
 
 // globalMapMax: maximum of the constant integer values stored into a
 // package-level map by its package initialiser (and nowhere else).
@@ -1376,6 +1454,13 @@ func loopInvariant(v ssa.Value, li *loopInfo) bool {
 			}
 			if c.IsInvoke() && (c.Method.Name() == "Len") {
 				return loopInvariant(c.Value, li)
+			}
+			// accessors of an (immutable) reflect.Type descriptor
+			if c.IsInvoke() && typeShort(c.Value.Type()) == "reflect.Type" {
+				switch c.Method.Name() {
+				case "NumIn", "NumOut", "NumField", "NumMethod":
+					return loopInvariant(c.Value, li)
+				}
 			}
 		case *ssa.BinOp:
 			return loopInvariant(y.X, li) && loopInvariant(y.Y, li)
